@@ -361,6 +361,8 @@ public:
     void finalize()
     {
         for (auto& deferred_write : m_deferred_writes) {
+            // The directory may have been removed in the meantime by a later patch removing the last file in it.
+            ensure_parent_directories(deferred_write.destination_path);
             File file(deferred_write.destination_path, std::ios_base::out | std::ios::trunc);
             deferred_write.source.write_entire_contents_to(file);
             deferred_write.permission_callback(deferred_write.destination_path);
